@@ -408,3 +408,51 @@ Proof.
   intros H. destruct (cli_error_no_file fuel wb' dm out f c H) as [H1 H2].
   repeat split; try assumption. rewrite H1. reflexivity.
 Qed.
+
+(* ================================================================ more sites *)
+(* a create_flow row whose sheet does not exist: found after the whole index, in
+   _populate_missing_templates; the flow definitions before it have their templates *)
+Theorem detect_missing_flow_sheet fuel wb dm rows st fpre d fpost st' :
+  wb_get wb s_content_index = Some (SIndex rows) ->
+  process_index fuel (erase wb) dm rows is0 = Ok st ->
+  is_flows st = fpre ++ d :: fpost ->
+  foldM (fun s0 d0 => add_template (erase wb) s0 (fd_sheet d0) (fd_argdefs d0) false) fpre st = Ok st' ->
+  aget (is_templates st') (fd_sheet d) = None ->
+  wb_get wb (fd_sheet d) = None ->
+  compile fuel wb dm = Err ESheetNotFound.
+Proof.
+  intros Hix Hrows Hfl Hpre Htm Hw. unfold compile, compile_core, index_phase.
+  rewrite wb_get_erase, Hix. cbn [option_map erase_sheet]. rewrite Hrows. cbn [bind lift].
+  unfold populate_templates. rewrite Hfl, foldM_app, Hpre. cbn [foldM].
+  unfold add_template. rewrite Htm. cbn [bind].
+  rewrite sheet_or_die_missing by (apply wb_get_erase_none; exact Hw). reflexivity.
+Qed.
+
+(* a template argument whose name is a column of the data row the flow is instantiated with *)
+Lemma flow_def_arg_in_data_row E inj visit fuel st cs d ds c defs a more :
+  fd_dsheet d <> [] -> fd_drow d <> [] ->
+  aget (is_data st) (fd_dsheet d) = Some ds -> aget (ds_rows ds) (fd_drow d) = Some c ->
+  aget (is_templates st) (fd_sheet d) = Some defs -> defs = a :: more ->
+  chas c (ad_name a) = true ->
+  flow_def_step E inj visit fuel st cs d = Err (inj EArgDouble).
+Proof.
+  intros H1 H2 Hds Hc Ht Hd Hin. unfold flow_def_step.
+  destruct (fd_dsheet d) as [|x ds0] eqn:E1; [congruence|]. destruct (fd_drow d) as [|y dr0] eqn:E2; [congruence|].
+  unfold one_flow, liftE, flow_ctx. rewrite E1, Hds. cbn [bind]. rewrite Hc. cbn [bind]. rewrite Ht.
+  rewrite (map_args_double defs (fd_targs d) c a more Hd Hin). reflexivity.
+Qed.
+
+Theorem detect_template_argument_in_data_row fuel wb dm st pre d post cs ds c defs a more :
+  index_phase fuel (erase wb) dm = Ok st ->
+  is_flows st = pre ++ d :: post ->
+  foldM (flow_def_step cls (fun c => c) (visit_of wb) fuel st) pre (mkCS uu0 [] 0) = Ok cs ->
+  fd_dsheet d <> [] -> fd_drow d <> [] ->
+  aget (is_data st) (fd_dsheet d) = Some ds -> aget (ds_rows ds) (fd_drow d) = Some c ->
+  aget (is_templates st) (fd_sheet d) = Some defs -> defs = a :: more ->
+  chas c (ad_name a) = true ->
+  compile fuel wb dm = Err EArgDouble.
+Proof.
+  intros Hix Hfl Hpre H1 H2 Hds Hc Ht Hd Hin.
+  apply (flow_def_fault_fatal fuel wb dm st pre d post cs); try assumption.
+  apply (flow_def_arg_in_data_row cls (fun c => c)) with (ds := ds) (c := c) (defs := defs) (a := a) (more := more); assumption.
+Qed.
